@@ -1,5 +1,5 @@
 ENGINES = [
-    {"name": "E1 history + reference model", "path": "fv/", "serves_properties": ["C01", "C03", "C04", "C08", "C14", "C15"],
+    {"name": "E1 history + reference model", "path": "fv/", "serves_properties": ["C01", "C03", "C04", "C07", "C08", "C14", "C15", "C17", "C18", "C19"],
      "kind_free_text": "Python stdlib driver: seeded command histories sent over TCP to a private hooks-on ferrous child; every reply and canonical dumps compared with a small sequential Redis model"},
     {"name": "E2 hooked-state invariants", "path": "fv/diff.py (VERIF CHECK)", "serves_properties": ["C03", "C04", "C15"],
      "kind_free_text": "cfg-guarded VERIF admin command walking skip lists, streams, pending lists, expiry index, blocking registry under their own locks"},
@@ -32,6 +32,23 @@ add("C15", "exploration",
     "differential run of stream histories (auto/explicit IDs at all edges, XDEL/XTRIM, range reads with bounds placed around stored IDs) against a sorted-map model with max-ever last-id; stream walker every 10 commands",
     "trusted: reference model; only complete ms-seq IDs are sent; field order inside an entry is not compared",
     "reference-model differential monitor + hooked stream invariant walker", "E1+E2", "DESIGN.md 7/C15")
+
+add("C07", "exploration",
+    "sequential transaction histories compared slot by slot with the model (DISCARD, nested MULTI, disconnects before/after EXEC, interleaved observer) plus 20 s of free-running contention with uniquely valued writes and linear-time visibility oracles",
+    "trusted: reference model; atomicity violations are only observable when a reader or a foreign write actually lands inside the window - the contention run reports how many observations were made",
+    "reference-model differential monitor + concurrent history monitor with unique-value attribution", "E1", "DESIGN.md 7/C07")
+add("C17", "exploration",
+    "complete enumeration of the dispatch table x pipeline position / connection state on a password-protected server, with side-effect observation from an authenticated control connection and a password mutation set",
+    "trusted: the catalogue (gaps against the dispatch match arms are enumerated with bare invocations and reported); inline commands are skipped when the server has no inline protocol",
+    "exhaustive command-table enumeration with reply-class and side-effect oracles at the client boundary", "E1", "DESIGN.md 7/C17")
+add("C18", "exploration",
+    "multi-connection histories over equal key names through direct / MULTI (with queued SELECT) / EVAL / EVALSHA / blocking-pop paths with a 16-way model; every history ends with a canonical dump of all 16 databases; the connection's effective database is probed at the client boundary",
+    "trusted: reference model; script reply conversion is not judged here",
+    "reference-model differential monitor over multi-connection histories", "E1", "DESIGN.md 7/C18")
+add("C19", "exploration",
+    "full cursor iterations of SCAN/HSCAN/SSCAN/ZSCAN under an adversary that adds/deletes non-stable elements between calls, all COUNT/MATCH/TYPE forms; containment, no-phantom, filter and bounded-termination oracles",
+    "trusted: own glob matcher; the adversary's positional heuristics (byte order) are only heuristics - random deletions are always included",
+    "history monitor with stable-subset containment oracle under adversarial interleaving", "E1", "DESIGN.md 7/C19")
 
 for pid in ["C02","C03","C04","C05","C06","C07","C08","C09","C10","C11","C12","C13","C14","C15","C16","C17","C18","C19","C20"]:
     if pid not in CHECKS:
